@@ -317,3 +317,22 @@ Proof.
   apply andb_prop in H. destruct H as [A B]. apply Nat.eqb_eq in B. split; auto.
   cbn [snd]. intros ->. cbn [orb] in A. now apply occupancy_sound_lemma.
 Qed.
+
+(* ---------- line-level runs: what acceptance of a CLine case means (model-free) --------------------- *)
+
+Theorem monitor_sound_line_lemma :
+  forall cfg progs results occ endcode locked_end probe km,
+    ok (CLine cfg progs results occ endcode locked_end probe km) = true ->
+    km = 0 /\
+    (progs_ok progs = true ->
+     (forall k, NoDup (inside_after (firstn k occ)) /\ length (inside_after (firstn k occ)) <= 1) /\
+     (endcode = 0 -> inside_after occ = [] -> (forall b, In b locked_end -> b = false) /\ probe = true)).
+Proof.
+  intros cfg progs results occ endcode locked_end probe km H. unfold ok in H.
+  apply andb_prop in H. destruct H as [A B]. apply Nat.eqb_eq in B. split; auto.
+  intros Hp. rewrite Hp in A. cbn [negb orb] in A. apply andb_prop in A. destruct A as [A1 A2].
+  split; [now apply occupancy_sound_lemma|].
+  intros -> Hin. unfold quiet_end in A2. fold (inside_after occ) in A2. rewrite Hin in A2. cbn in A2.
+  apply andb_prop in A2. destruct A2 as [A2 A3]. split; auto.
+  intros b Hb. rewrite forallb_forall in A2. specialize (A2 b Hb). destruct b; [discriminate|reflexivity].
+Qed.
